@@ -3,11 +3,19 @@ package main
 import (
 	"fmt"
 	"os"
+	"strconv"
 
 	"verif/c02"
+	"verif/c03"
+	"verif/c04"
+	"verif/c06"
 	"verif/c09"
+	"verif/c10"
+	"verif/c11"
 	"verif/c13"
 	"verif/c14"
+	"verif/c18"
+	"verif/c20"
 	"verif/vf"
 )
 
@@ -17,15 +25,28 @@ var checks = map[string]struct {
 	run   func(*vf.Run)
 }{
 	"C02": {"exploration", "", c02.Run},
+	"C03": {"exploration", "", c03.Run},
+	"C04": {"exploration", "", c04.Run},
+	"C06": {"exploration", "", c06.Run},
 	"C09": {"exploration", "", c09.Run},
+	"C10": {"exploration", "", c10.Run},
+	"C11": {"exploration", "", c11.Run},
 	"C13": {"exploration", "", c13.Run},
 	"C14": {"exploration", "", c14.Run},
+	"C18": {"exploration", "", c18.Run},
+	"C20": {"exploration", "", c20.Run},
 }
 
 func main() {
 	if len(os.Args) < 2 {
 		fmt.Fprintln(os.Stderr, "usage: vcheck <Cxx>")
 		os.Exit(3)
+	}
+	if os.Args[1] == "C18child" && len(os.Args) >= 7 {
+		procs, _ := strconv.Atoi(os.Args[4])
+		builds, _ := strconv.Atoi(os.Args[5])
+		c18.Child(os.Args[2], os.Args[3], procs, builds, os.Args[6:])
+		return
 	}
 	if os.Args[1] == "--needs" && len(os.Args) > 2 {
 		fmt.Println(checks[os.Args[2]].needs)
